@@ -116,6 +116,35 @@ Theorem C14_lossless_partial : forall mtu st x l, 4 <= mtu -> h5_donl_on st = fa
 Proof. exact h265_lossless. Qed.
 Print Assumptions C14_lossless_partial.
 
+(* ---- the parser against an independent RFC 7798 encoder (Spec/Rfc7798.v): every well-formed
+   single NAL unit, aggregation (any number of units), fragmentation-unit and PACI payload, with the
+   decoding-order fields (DONL / DOND) when the receiver expects them and without when it does not,
+   decodes to exactly the encoded field values; with the accessor theorems above this gives every
+   bit field.  The TSCI extension is read from the first three PHES bytes exactly when F0 is set
+   and PHSsize >= 3. ---- *)
+From Coq Require Import Bool.
+From RTP Require Import Spec.Rfc7798 Proofs.C14_Forms.
+
+Theorem C14_parse_forms : forall with_donl f, wf_form f ->
+  h265_unmarshal with_donl (Some (encode with_donl f)) = Ok (expected with_donl f).
+Proof. exact parse_forms. Qed.
+Print Assumptions C14_parse_forms.
+
+Theorem C14_paci_tsci : forall a ctype phs f0 f1 f2 y phes,
+  0 <= ctype < 64 -> 0 <= phs < 32 -> zlen phes = phs ->
+  paci_tsci (paci_word a ctype phs f0 f1 f2 y) phes
+  = Ok (if f0 && (3 <=? phs) then match phes with p0 :: p1 :: p2 :: _ => Some (tsci_of p0 p1 p2) | _ => None end
+        else None).
+Proof. exact paci_tsci_spec. Qed.
+Print Assumptions C14_paci_tsci.
+
+Example C14_parse_forms_nonvacuous :
+  encode true (FAgg 1 2 513 [64; 1; 9] [(7, [2; 1]); (0, [66; 1; 5; 5])])
+  = [96; 10; 2; 1; 0; 3; 64; 1; 9; 7; 0; 2; 2; 1; 0; 0; 4; 66; 1; 5; 5] /\
+  encode false (FPaci 0 1 true 33 3 true false false true [9; 8; 129] [1; 2])
+  = [100; 1; 194; 57; 9; 8; 129; 1; 2].
+Proof. split; reflexivity. Qed.
+
 (* ---- the two known findings, as witnesses evaluated on the model (vm_compute); the same inputs
    replayed on the implementation give the same bytes (corpus/C14.cases) ---- *)
 (* KF-C14-lone-fu: a NAL unit of MTU-1 bytes becomes a single fragmentation unit with S set and
